@@ -101,18 +101,18 @@ Qed.
 Lemma one_step_ok ns tm : donech (one_step ns tm) = true /\ norepeat (one_step ns tm).
 Proof. split; [reflexivity|]. apply norepeat_mkcfgx. reflexivity. Qed.
 
-(* Why the outcome theorems carry the premise donech c = true.  Schedule called WITHOUT a done channel: the command fails
-   on its own after the stop flag is set and before the Signal pass reaches its node; the worker only records the error,
-   falls through to the final relabelling (running -> finished) - the step is reported finished although its only
-   attempt failed; the Signal pass then finds it finished.  Observed on the real scheduler:
-   findings/C04-done-nil-finished-after-failure.json (candidate fix: fixes/F-sched-done-nil-finished.diff). *)
+(* The done == nil scenario, repaired by 614b59e.  Schedule called WITHOUT a done channel: the command fails on its own
+   after the stop flag is set and before the Signal pass reaches its node; the worker records the error and labels the
+   node canceled (it did not complete); the final relabelling running -> finished no longer applies.  (Before the fix
+   the step was reported finished although its only attempt had failed:
+   findings/C04-done-nil-finished-after-failure.json.) *)
 Definition one_step_nodone : cfg := mkcfgx [sd [] 0] 0 false false 1 false allh.
 Definition done_nil_exec : list label :=
   launch 0 ++ [SigFlag; WExecEnd 0 false; WAfter 0 false; WFinish 0; SigNode false].
-Lemma done_nil_finished_after_failure :
+Lemma done_nil_repaired :
   donech one_step_nodone = false /\ norepeat one_step_nodone /\ dry one_step_nodone = false /\
   exists s, Reach one_step_nodone s /\ canceled s = true /\ lasterr s = true /\ sigq s = [] /\
-    st (nd s 0) = NSuccess /\ outs (nd s 0) = [false].
+    st (nd s 0) = NCancel /\ outs (nd s 0) = [false] /\ overall one_step_nodone s = OCancel.
 Proof.
   split; [reflexivity|]. split; [apply norepeat_mkcfgx; reflexivity|]. split; [reflexivity|].
   eexists. split; [exists done_nil_exec; vm_compute; reflexivity|].
